@@ -247,6 +247,10 @@ func buildCall(p *Prog, c *ssa.Call, resIdx int, env *Env, d int, t types.Type) 
 				return op("cmp>", t, arg(0), arg(1))
 			case "Time.Equal":
 				return op("cmp==", t, arg(0), arg(1))
+			case "Time.Compare":
+				// sign(a-b): over integer nanoseconds every comparison of the result with -1, 0 or 1 is the
+				// same comparison of a-b (a.Compare(b) > 0 <=> a-b > 0, >= 1 <=> a-b >= 1 <=> a > b, ...)
+				return op("-", t, arg(0), arg(1))
 			case "Time.UnixNano", "Duration.Nanoseconds":
 				return retype(arg(0), arg(0).Typ)
 			case "Time.Unix":
@@ -487,7 +491,7 @@ func (a Poly) atoms() map[string]bool {
 type RatFunc struct{ P, Q Poly }
 
 func rfConst(r *big.Rat) RatFunc { return RatFunc{polyConst(r), polyConst(big.NewRat(1, 1))} }
-func rfAtom(a string) RatFunc   { return RatFunc{polyAtom(a), polyConst(big.NewRat(1, 1))} }
+func rfAtom(a string) RatFunc    { return RatFunc{polyAtom(a), polyConst(big.NewRat(1, 1))} }
 
 func (a RatFunc) Add(b RatFunc, sign int64) RatFunc {
 	if a.Q.equal(b.Q) {
